@@ -176,6 +176,31 @@ def run(ctx):
                 cond, then, els = if_parts(x)
                 if 'GRAYSCALE_PPM' in canon(cond) and then is not None and data_subscripts(then):
                     gray_if = x
+        if gray_if is None:
+            # the expansion lives in a helper (or is written with pointers): the one thing that is shape-
+            # independent is the hazard of expanding in place - in the loop that stores the expanded pixel,
+            # every read of the buffer comes before the first store (for the first pixel source and
+            # destination overlap)
+            gi = next((x for x in walk(lbody) if x.get('kind') == 'IfStmt' and 'GRAYSCALE_PPM' in canon(if_parts(x)[0]) and if_parts(x)[1] is not None), None)
+            if gi is not None:
+                seen_loops = set()
+                for lp_ in [x for x in walk_deep(if_parts(gi)[1], u) if x.get('kind') in LOOPS]:
+                    if any(y.get('kind') in LOOPS for y in walk(loop_body(lp_)) if y is not lp_) or lp_.get('_off') in seen_loops:
+                        continue
+                    seen_loops.add(lp_.get('_off'))
+                    subs_ = [y for y in walk(loop_body(lp_)) if y.get('kind') == 'ArraySubscriptExpr' or (y.get('kind') == 'UnaryOperator' and y.get('opcode') == '*' and '*' in (qtype(strip(y['inner'][0])) or ''))]
+                    def is_store(y):
+                        p_ = y.get('_p')
+                        while p_ is not None and p_.get('kind') in ('ParenExpr',):
+                            y, p_ = p_, p_.get('_p')
+                        return p_ is not None and p_.get('kind') in ('BinaryOperator', 'CompoundAssignOperator') and p_.get('opcode') in ASSIGN_OPS and strip(p_['inner'][0]) is y
+                    stores = [y for y in subs_ if is_store(y)]
+                    loads = [y for y in subs_ if not is_store(y)]
+                    if len(stores) >= 3 and loads:
+                        first_store = min(y.get('_off', 0) for y in stores)
+                        late = [y for y in loads if y.get('_off', 0) > first_store]
+                        ctx.check(not late, R, 'in-place|reads-before-writes', late[0] if late else lp_, 'every sample is read before the first store of the expanded pixel',
+                                  'in the in-place expansion loop `%s` is read after the destination pixel has been (partly) written: for the first pixel source and destination overlap and the sample is already overwritten' % (src_text(late[0], 30) if late else ''))
         ctx.need(gray_if is not None, 'load(): grayscale expansion block not found')
         _, gthen, _ = if_parts(gray_if)
         ctx.check(all(c.get('_off', 0) < gray_if.get('_off', 0) for c in commits[:1]) , R, 'expansion-after-commit', gray_if, 'expansion runs on the committed buffer', 'expansion precedes the commit')
@@ -408,8 +433,49 @@ def run(ctx):
         lp_ = padding_defs(lbody, 'w')
         sp_ = padding_defs(svb, 'this.width')
         want_pad = '((4 - ((W * pixel_bytes) % 4)) % 4)'
-        ctx.check(len(lp_) == 1 and lp_[0][1] == want_pad, R, 'padding|loader', lp_[0][0] if lp_ else L, want_pad, 'loader row padding is %s' % [p_[1] for p_ in lp_])
-        ctx.check(len(sp_) == 1 and sp_[0][1] == want_pad, R, 'padding|saver', sp_[0][0] if sp_ else SV, want_pad, 'saver row padding is %s' % [p_[1] for p_ in sp_])
+        # a formula written differently is evaluated: the padding for every width 0..67 (and widths near
+        # 2^16, 2^31, 2^32) with both pixel sizes must be (4 - (W * pixel_bytes) % 4) % 4
+        from props.c09 import OvEval
+        from props.c04 import enum_env
+        from bits import bv_const
+        IV = OvEval(u, enum_env(u))
+
+        def pad_by_evaluation(vdecl, body, wname):
+            locs = {v_.get('name'): v_ for v_ in walk(body) if v_.get('kind') == 'VarDecl' and kids(v_) and v_.get('name')}
+            for W_ in list(range(0, 68)) + [65535, 65536, 65537, (1 << 31) - 1, (1 << 31) + 1, (1 << 32) - 3]:
+                for al_ in (0, 1):
+                    IV.ov = {wname: W_, 'this.has_alpha': al_, 'has_alpha': al_, 'pixel_bytes': 3 + al_}
+                    for _ in range(3):
+                        for nm_, v_ in locs.items():
+                            if nm_ in IV.ov or v_ is vdecl or nm_ == 'row_padding_bytes':
+                                continue
+                            try:
+                                c_ = bv_const(IV.eval(kids(v_)[-1], {}))
+                            except Exception:
+                                c_ = None
+                            if c_ is not None:
+                                IV.ov[nm_] = c_
+                    try:
+                        got = bv_const(IV.eval(kids(vdecl)[-1], {}))
+                    except Exception:
+                        got = None
+                    if got is None:
+                        return None, 'not a constant for W=%d' % W_
+                    want = (4 - (W_ * (3 + al_)) % 4) % 4
+                    if (got & 0xFFFFFFFFFFFFFFFF) != want:
+                        return False, 'for width %d and %d-byte pixels the padding is %d, a row must be padded by %d to a multiple of 4' % (W_, 3 + al_, got, want)
+            return True, ''
+        for side, defs_, body_, wn_, node_ in (('loader', lp_, lbody, 'w', L), ('saver', sp_, svb, 'this.width', SV)):
+            if len(defs_) == 1 and defs_[0][1] == want_pad:
+                ctx.ok(R, 'padding|' + side, defs_[0][0], want_pad)
+            elif len(defs_) == 1:
+                okp, whyp = pad_by_evaluation(defs_[0][0], body_, wn_)
+                if okp is None:
+                    ctx.undecided(R, 'padding|' + side, defs_[0][0], '%s row padding `%s` is neither the usual formula nor evaluable (%s)' % (side, defs_[0][1], whyp))
+                else:
+                    ctx.check(okp, R, 'padding|' + side, defs_[0][0], 'padding `%s` equals (4 - (W*pixel_bytes) %% 4) %% 4 for every width 0..67 and both pixel sizes (evaluated)' % defs_[0][1], '%s row padding `%s`: %s' % (side, defs_[0][1], whyp))
+            else:
+                ctx.undecided(R, 'padding|' + side, node_, '%s row padding variable not found (%d definitions)' % (side, len(defs_)))
         # pixel_bytes on both sides
         lpb = [nf(kids(v)[-1]) for v in walk(lbody) if v.get('kind') == 'VarDecl' and v.get('name') == 'pixel_bytes' and kids(v)]
         spb = [nf(kids(v)[-1]) for v in walk(svb) if v.get('kind') == 'VarDecl' and v.get('name') == 'pixel_bytes' and kids(v)]
